@@ -23,7 +23,7 @@ pub fn spec() -> Spec {
     Spec {
         prop: "C10",
         level: "exploration",
-        rule: "Twin with/without reads: instance A gets a generated history with read bursts at every block boundary (eth_call, eth_callMany with 2-5 calls and state carry-over, eth_estimateGas(Many), brc20_balance, all eth_get*/debug_*/txpool_*/brc20_get*; simulated code does SSTORE, CREATE/CREATE2, LOG, SELFDESTRUCT, REVERT, INVALID, out-of-gas, precompile calls with Bitcoin-transaction overrides, and the multi-call error path) and non-executing reads mid-block; instance B gets the same history without them. Compared: every indexer response, Obs immediately before/after each burst, Obs of A vs B at the end, and after the final commit and close every RocksDB table (db and *_cache, plus global) of both directories key by key (block rows with mineTimestamp zeroed). The failpoint observer must see no persistent write during a read. Non-trivial = read whose simulated execution succeeded on a state-changing code path; distinct by (method, simulated op).",
+        rule: "Twin with/without reads: instance A gets a generated history with read bursts at every block boundary (eth_call, eth_callMany with 2-5 calls and state carry-over, eth_estimateGas(Many), brc20_balance, all eth_get*/debug_*/txpool_*/brc20_get*; simulated code does SSTORE, CREATE/CREATE2, LOG, SELFDESTRUCT, REVERT, INVALID, out-of-gas, precompile calls with Bitcoin-transaction overrides, and the multi-call error path) and non-executing reads mid-block; instance B gets the same history without them. Compared: every indexer response, Obs immediately before/after each burst, Obs of A vs B at the end, and after the final commit and close every RocksDB table (db and *_cache, plus global) of both directories key by key (block rows with mineTimestamp zeroed). The failpoint observer must see no persistent write during a read. Simulations carry every kind of block parameter (tags, existing heights, heights up to 300 beyond the tip) and half of those run code reading BLOCKHASH / NUMBER around the simulated height. Non-trivial = read whose simulated execution succeeded on a state-changing code path; distinct by (method, simulated op).",
         assumptions: vec!["RocksDB write order differs between twins (HashMap walks) and is irrelevant: contents are compared, not files".into()],
         exhaustive: false,
         min_nontrivial: 2,
@@ -119,9 +119,30 @@ fn read_burst(rng: &mut Rng, d: &mut Driver, w: &mut World, rep: &mut WorkerRepo
             2 => Some(tool.clone()), // a sender that has code: validation error path
             _ => Some(pk_addr.clone()),
         };
+        // the optional block parameter: tags, existing heights and heights the chain has not reached
+        let latest = d.height.max(0) as u64;
+        let block_param: Option<Value> = match rng.below(10) {
+            0 => Some(json!("latest")),
+            1 => Some(json!("pending")),
+            2 => Some(json!("earliest")),
+            3 => Some(json!(format!("0x{:x}", latest))),
+            4 => Some(json!(format!("0x{:x}", latest + 1))),
+            5 => Some(json!(format!("0x{:x}", latest + 2))),
+            6 => Some(json!(format!("0x{:x}", latest + 2 + rng.below(300)))),
+            7 => Some(json!(format!("0x{:x}", rng.below(latest + 1)))),
+            _ => None,
+        };
+        let with_block = |mut params: Vec<Value>| -> Value {
+            if let Some(b) = &block_param {
+                params.push(b.clone());
+            }
+            Value::Array(params)
+        };
         match rng.below(5) {
             0 | 1 => {
-                let r = d.inst.call("eth_call", json!([call_obj(from.as_deref(), Some(&tool), &data)]));
+                // code that looks at the chain around the simulated height (BLOCKHASH, NUMBER) half of the time
+                let data = if block_param.is_some() && rng.chance(1, 2) { asm::tool_call(asm::OP_PROBE, &[asm::word_u64(0x7100), asm::word_u64(rng.range(1, 3)), asm::word_u64(latest + 1)], &[]) } else { data.clone() };
+                let r = d.inst.call("eth_call", with_block(vec![call_obj(from.as_deref(), Some(&tool), &data)]));
                 rep.evaluations += 1;
                 rep.count("read:eth_call", 1);
                 if r.is_ok() && state_changing.contains(&name) {
@@ -144,7 +165,7 @@ fn read_burst(rng: &mut Rng, d: &mut Driver, w: &mut World, rep: &mut WorkerRepo
                 } else {
                     Value::Null
                 };
-                let r = d.inst.call("eth_callMany", json!([calls[..n].to_vec(), Value::Null, overrides]));
+                let r = d.inst.call("eth_callMany", json!([calls[..n].to_vec(), block_param.clone().unwrap_or(Value::Null), overrides]));
                 rep.evaluations += 1;
                 rep.count("read:eth_callMany", 1);
                 if let Resp::Ok(Value::Array(a)) = &r {
@@ -158,7 +179,8 @@ fn read_burst(rng: &mut Rng, d: &mut Driver, w: &mut World, rep: &mut WorkerRepo
                 }
             }
             3 => {
-                let r = d.inst.call("eth_estimateGas", json!([call_obj(from.as_deref(), Some(&tool), &data)]));
+                let data = if block_param.is_some() && rng.chance(1, 2) { asm::tool_call(asm::OP_PROBE, &[asm::word_u64(0x7200), asm::word_u64(rng.range(1, 3)), asm::word_u64(latest + 1)], &[]) } else { data.clone() };
+                let r = d.inst.call("eth_estimateGas", with_block(vec![call_obj(from.as_deref(), Some(&tool), &data)]));
                 rep.evaluations += 1;
                 rep.count("read:eth_estimateGas", 1);
                 if r.is_ok() && state_changing.contains(&name) {
